@@ -394,6 +394,7 @@ class Ctx:
         self.notes = []
         self.proof = None
         self.extra = {}
+        self.tie_broken = []  # translator / cross-check could not tie the model to the changed source
         try:
             from harness import anchors
 
@@ -535,6 +536,7 @@ def write_evidence(ctx, violations, level="proof"):
         "property_failures": ctx.failures[:5],
         "known_findings_seen": ctx.known_seen,
         "anchors_changed": ctx.anchors_changed,
+        "tie_broken": ctx.tie_broken,
         "notes": ctx.notes,
     }
     for k, v in ctx.extra.items():
@@ -592,6 +594,10 @@ def decide(ctx, mod):
         path = write_replay(prop, "corr", {"correspondence_stream": first["stream"], "case": first["case"], "line": first["line"], "model": first["model"], "impl": first["impl"], "note": "model and implementation disagree; no input was found on which the property itself fails", "more": len(ctx.disagreements) - 1})
         out.append("VIOLATION property=%s replay=%s no-failing-input-found" % (prop, path))
         violations += len(ctx.disagreements)
+    elif ctx.tie_broken:
+        path = write_replay(prop, "tie", {"tie_no_longer_checks": ctx.tie_broken, "note": "the translator / cross-check that ties the model to the source does not apply to the changed code; the failing-input search on the implementation found nothing"})
+        out.append("VIOLATION property=%s replay=%s no-failing-input-found" % (prop, path))
+        violations += 1
     elif ctx.proof and ctx.proof.failed:
         path = write_replay(prop, "proof", {"theorems_not_checked": [list(f) for f in ctx.proof.failed][:20], "log_tail": ctx.proof.build_log[-3000:], "note": "a proof obligation no longer checks; the failing-input search on the implementation found nothing"})
         out.append("VIOLATION property=%s replay=%s no-failing-input-found" % (prop, path))
